@@ -370,6 +370,37 @@ def loadVm (hdr : Fields) : List (String × List JVal) :=
   | some (.obj l) => l.filterMap fun (k, v) => match v with | .arr a => some (k, a) | _ => none
   | _ => []
 
+/-- `"$generator" not in obj["meta"] or "nutree/" not in str(obj["meta"]["$generator"])` when `"meta"` is not a JSON
+object: `null`, a number or a bool is not iterable (TypeError); a list / string is searched — when it contains
+`"$generator"` the subscript `obj["meta"]["$generator"]` raises TypeError, otherwise the format is refused. -/
+def badMetaErr : JVal → Err
+  | .null => .type
+  | .bool _ => .type
+  | .num _ => .type
+  | .arr l => if l.any (fun x => match x with | .str s => s == "$generator" | _ => false) then .type else .runtime
+  | .str s => if (s.splitOn "$generator").length > 1 then .type else .runtime
+  | .obj _ => .runtime
+
+/-- `"$generator" in meta and "nutree/" in str(meta["$generator"])` for a JSON object `meta`. -/
+def genOk (hdr : Fields) : Bool :=
+  match lookupF hdr "$generator" with
+  | some (.str s) => hasNutree s
+  | _ => false
+
+/-- `"nodes"` is present but not a JSON array (the header was accepted): `for _parent_idx, data in obj["nodes"]`
+over `null` / number / bool is a TypeError; over a string it unpacks one-character strings (ValueError) unless the
+string is empty; over an object it unpacks the keys — a key that is not two characters long is a ValueError,
+otherwise `_from_list` looks the first character up as a parent index (KeyError); empty → the empty tree. -/
+def oddNodes (typed : Bool) (strAtom : String → Atom) (deser : Fields → DRes) (hdr : Fields) : JVal → Except Err (Tree × Fields)
+  | .null => .error .type
+  | .bool _ => .error .type
+  | .num _ => .error .type
+  | .str s => if s.isEmpty then (fromListG typed strAtom deser []).map fun t => (t, hdr) else .error .value
+  | .obj l =>
+    if l.isEmpty then (fromListG typed strAtom deser []).map fun t => (t, hdr)
+    else if l.any (fun e => e.1.length != 2) then .error .value else .error .key
+  | .arr _ => .error .other     -- not reached: arrays take the regular path
+
 /-- `Tree.load` on a JSON value: header check, `file_meta`, un-compression, `_from_list`.
 (Header values of unexpected types — a `meta` that is not an object, maps that are not objects of
 strings / lists — are outside the model: they are treated as missing.) -/
@@ -387,6 +418,10 @@ def loadJ (typed : Bool) (strAtom : String → Atom) (deser : Fields → DRes) (
           | .error e => .error e
           | .ok rows => (fromListG typed strAtom deser rows).map fun t => (t, hdr)
       | none => .error .runtime
+    | some (.obj hdr), some nd =>
+      -- "nodes" is present but not a JSON array: the header checks come first, then the first loop iterates it
+      if genOk hdr then oddNodes typed strAtom deser hdr nd else .error .runtime
+    | some m, some _ => .error (badMetaErr m)
     | _, _ => .error .runtime
   | _ => .error .runtime
 
